@@ -130,8 +130,11 @@ def registry():
     simple('mean', lambda L, rk: [('uniform', [_base(L, rk)[0]], {}), ('weighted', [_base(L, rk)[0], [[0.5, 0.25, 0.25], [0.5, 0.5], [1.0, 0.0, 0.0]]], {})])
     simple('norm', lambda L, rk: [('plain', [_base(L, rk)[0]], {}), ('stab', [_base(L, rk)[0]], dict(use_stab=True))])
     simple('sum', lambda L, rk: [('', [_base(L, rk)[0]], {})])
-    simple('tt_to_qtt', lambda L, rk: [('e%g-r%g' % (e, r), [ttl(space.tt([4, 4], [1, rk, 1], 'gen', 0), L)], dict(e=e, r=r)) for e in (1e-12, 1e-2) for r in (1, 100)])
-    simple('qtt_to_tt', lambda L, rk: [('', [ttl(space.tt([2, 2, 2, 2], [1, rk, 2, rk, 1], 'gen', 0), L), 2], {})])
+    simple('tt_to_qtt', lambda L, rk: [('e%g-r%g' % (e, r), [ttl(space.tt([4, 4], [1, rk, 1], 'gen', 0), L)], dict(e=e, r=r)) for e in (1e-12, 1e-2) for r in (1, 100)] +
+           [('q1', [ttl(space.tt([2, 2, 2], [1, rk, rk, 1], 'gen', 0), L)], {}), ('q3', [ttl(space.tt([8, 8], [1, rk, 1], 'gen', 0), L)], {})])
+    simple('qtt_to_tt', lambda L, rk: [('q2', [ttl(space.tt([2, 2, 2, 2], [1, rk, 2, rk, 1], 'gen', 0), L), 2], {}),
+                                       ('q1', [ttl(space.tt([2, 2, 2], [1, rk, rk, 1], 'gen', 0), L), 1], {}),
+                                       ('q3', [ttl(space.tt([2, 2, 2], [1, rk, rk, 1], 'gen', 0), L), 3], {})])
     # --- act_two / act_many ----------------------------------------------------------------------------
     for nm in ('add', 'sub', 'mul'):
         simple(nm, lambda L, rk: [('tt-tt', list(_base(L, rk)), {}), ('tt-num', [_base(L, rk)[0], 2.0], {}), ('num-tt', [-1.5, _base(L, rk)[0]], {}),
@@ -141,7 +144,8 @@ def registry():
     simple('outer', lambda L, rk: [('', list(_base(L, rk)), {}), ('same', [_base(L, rk)[0]] * 2, {})])
     simple('add_many', lambda L, rk: [('f%d' % f, [[_base(L, rk)[0], _base(L, rk)[1], 2.0, _base(L, rk)[0]]], dict(e=1e-8, r=r, trunc_freq=f))
                                       for f in (1, 15) for r in (2, 1e12)] + [('single', [[_base(L, rk)[0]]], {})])
-    simple('outer_many', lambda L, rk: [('', [[_base(L, rk)[0], _base(L, rk)[1]]], {}), ('single', [[_base(L, rk)[0]]], {})])
+    simple('outer_many', lambda L, rk: [('', [[_base(L, rk)[0], _base(L, rk)[1]]], {}), ('single', [[_base(L, rk)[0]]], {}),
+                                        ('three', [[_base(L, rk)[0], _base(L, rk)[1], _base(L, rk)[0]]], {})])
     # --- props / data ----------------------------------------------------------------------------------------
     for nm in ('erank', 'ranks', 'shape', 'size'):
         simple(nm, lambda L, rk: [('', [_base(L, rk)[0]], {})])
@@ -150,7 +154,7 @@ def registry():
                                               ('trunc', [_base(L, rk)[0], _grid(L), lay(_f(space.grid_array([3, 2, 3])), L)], dict(e_trunc=1e-3))])
     simple('cache_to_data', lambda L, rk: [('', [{(0, 1): 2.0, (1, 1): -1.0}], {})])
     # --- transformation -------------------------------------------------------------------------------------------
-    simple('full', lambda L, rk: [('', [_base(L, rk)[0]], {}), ('d2', [ttl(space.tt([1, 3], [1, rk, 1], 'gen', 0), L)], {}),
+    simple('full', lambda L, rk: [('', [_base(L, rk)[0]], {}), ('d1', [ttl([space.core('gen', 1, 3, 1, 0, 0)], L)], {}), ('d2', [ttl(space.tt([1, 3], [1, rk, 1], 'gen', 0), L)], {}),
                                   ('n1', [ttl(space.tt([3, 1], [1, rk, 1], 'gen', 0), L)], {})])
     simple('full_matrix', lambda L, rk: [('', [ttl(space.tt([4, 4], [1, rk, 1], 'gen', 0), L)], {})])
     simple('orthogonalize', lambda L, rk: [('k%s-%s' % (k, st), [_base(L, rk)[0], k], dict(use_stab=st)) for k in (None, 0, 1, 2) for st in (False, True)])
@@ -185,7 +189,9 @@ def registry():
                                              ('ind', [G(L, rk), lay(space.core('gen', 1, rk, 2, 0, 0)[0], L)], dict(ind=lay(np.array([0, 1]), L))),
                                              ('rtl', [G(L, rk), lay(space.core('gen', 1, 2, 2, 0, 0)[0], L)], dict(ltr=False))])
     simple('core_qr_rand', lambda L, rk: [('ltr', [G(L, rk), 2], dict(seed=0)), ('rtl', [G(L, rk), 2], dict(ltr=False, seed=0))])
-    simple('core_qtt_to_tt', lambda L, rk: [('', [ttl([space.core('gen', 2, 2, rk, 0, 0), space.core('gen', rk, 2, 3, 1, 0)], L)], {})])
+    simple('core_qtt_to_tt', lambda L, rk: [('two', [ttl([space.core('gen', 2, 2, rk, 0, 0), space.core('gen', rk, 2, 3, 1, 0)], L)], {}),
+                                            ('one', [ttl([space.core('gen', 2, 2, rk, 0, 0)], L)], {}),
+                                            ('three', [ttl([space.core('gen', 1, 2, rk, 0, 0), space.core('gen', rk, 2, 2, 1, 0), space.core('gen', 2, 2, 1, 2, 0)], L)], {})])
     simple('core_stab', lambda L, rk: [('scaled', [G(L, rk) * 8.0], {}), ('p0', [G(L, rk), 3], {})])      # below-threshold pass-through is whitelisted, not driven
     simple('core_tt_to_qtt', lambda L, rk: [('e%g' % e, [lay(space.core('gen', 2, 4, rk, 0, 0), L)], dict(e=e, r=r)) for e in (0., 1e-2) for r in (1, 1e12)])
     # --- cross / als / anova ------------------------------------------------------------------------------------------------------------------
@@ -240,6 +246,8 @@ def registry():
     simple('func_get', lambda L, rk: [('ab', [X3(L), _base(L, rk)[0], -1., 1.], {}), ('noab', [X3(L), _base(L, rk)[0]], {}),
                                       ('one', [lay(np.array([0.1, 0.2, 0.3]), L), _base(L, rk)[0], lay(np.array([-1., -1., -1.]), L), lay(np.array([1., 1., 1.]), L)], {}),
                                       ('funcs', [X3(L), _base(L, rk)[0]], dict(funcs=[lambda x: teneva.func_basis(x, 3)] * 3))])
+    simple('copy', lambda L, rk: [('tt', [_base(L, rk)[0]], {}), ('array', [_dense(L)], {}), ('num', [2.5], {}), ('none', [None], {}),
+                                  ('tt1', [ttl([space.core('gen', 1, 3, 1, 0, 0)], L)], {})])
     simple('func_gets', lambda L, rk: [('m%s-%s' % (m, k), [_base(L, rk)[0]], dict(m=m, kind=k)) for m in (None, 4, [2, 3, 4]) for k in ('cheb', 'sin')])
     simple('func_int', lambda L, rk: [(k, [_base(L, rk)[0]], dict(kind=k)) for k in ('cheb', 'sin')])
     simple('func_int_general', lambda L, rk: [('x1d', [ttl(space.tt([3, 3, 3], [1, rk, rk, 1], 'gen', 0), L), lay(np.array([-0.9, 0.1, 0.8]), L),
